@@ -2,14 +2,19 @@ import PdeVerif.Model.Mesh
 import PdeVerif.Lemmas.Mesh
 import PdeVerif.Lemmas.MeshNd
 import PdeVerif.Lemmas.MeshGeom
+import PdeVerif.Lemmas.MeshExch
 import PdeVerif.Lemmas.Basic
 import Mathlib.Algebra.BigOperators.Ring.List
 /-
 C17 - splitting a grid into sub-grids changes nothing.
 
 Theorems about `PdeVerif.Mesh` (model of `pde/grids/_mesh.py`).  The chunk sizes along an axis
-are an arbitrary list meeting the contract (positive entries, right sum); the reference formula
-`subdivide` is shown to meet it.
+are an arbitrary list meeting the contract (positive entries, right sum).  The formula of the code
+(`subdivideLin`: `np.linspace(0, num, chunks+1).astype(int)`, the same operations in the same order)
+is, over an exact ordered field, the integer formula `subdivide` (`subdivideLin_exact`), which
+meets the contract; `subdivide_robust` extends the contract to every perturbation of the cuts that
+double rounding can cause (`RobustCuts`).  What is NOT proven is that IEEE doubles produce only such
+perturbations: the driver evaluates `subdivideLin Float`, and the harness measures it.
 -/
 namespace PdeVerif.Mesh.C17
 open PdeVerif PdeVerif.Mesh
@@ -89,6 +94,193 @@ theorem balancedB_iff (sizes : List Nat) :
       rcases h3 with h3 | h3
       · subst h3; exact h a ha lo (List.mem_cons_self ..)
       · exact h a ha _ h3
+
+/-! ## the formula of the code (`np.linspace`) -/
+
+section lin
+variable {K : Type} [Field K] [LinearOrder K] [IsStrictOrderedRing K] [FloorRing K]
+
+/-- over an exact ordered field the cut positions the code computes with `np.linspace` are the
+integer formula `floor(i*num/chunks)` -/
+theorem linCut_exact (num chunks i : Nat) (hc : 0 < chunks) :
+    linCut K num chunks i = ((cut num chunks i : Nat) : Int) := by
+  unfold linCut cut
+  split_ifs with h
+  · subst h; rw [Nat.mul_div_cancel_left num hc]
+  · rw [floor_def]
+    have e : ((i : Nat) : K) * (((num : Nat) : K) / ((chunks : Nat) : K)) = (((i * num : Nat) : K)) / ((chunks : Nat) : K) := by
+      push_cast; ring
+    rw [e, Int.floor_div_natCast, Int.floor_natCast]
+    norm_cast
+
+/-- ... hence the chunk sizes of the code are the reference chunk sizes -/
+theorem subdivideLin_exact (num chunks : Nat) (hc : 0 < chunks) :
+    subdivideLin K num chunks = (subdivide num chunks).map (fun s : Nat => (s : Int)) := by
+  unfold subdivideLin subdivide
+  rw [List.map_map]
+  apply List.map_congr_left
+  intro i _
+  simp only [Function.comp, linCut_exact (K := K) num chunks _ hc]
+  have := cut_mono num chunks (Nat.le_add_right i 1)
+  omega
+
+/-- the contract for the chunk sizes the code computes (exact arithmetic): positive sizes that add
+up to `num`, differing by at most one -/
+theorem subdivideLin_contract (num chunks : Nat) (hc : 0 < chunks) (h : chunks ≤ num) :
+    (∀ s ∈ subdivideLin K num chunks, 0 < s) ∧ (subdivideLin K num chunks).sum = (num : Int) ∧
+    (∀ a ∈ subdivideLin K num chunks, ∀ b ∈ subdivideLin K num chunks, a ≤ b + 1) := by
+  rw [subdivideLin_exact (K := K) num chunks hc]
+  refine ⟨?_, ?_, ?_⟩
+  · intro s hs
+    obtain ⟨t, ht, rfl⟩ := List.mem_map.1 hs
+    exact_mod_cast subdivide_pos num chunks hc h t ht
+  · have key : ∀ l : List Nat, (l.map (fun s : Nat => (s : Int))).sum = ((l.sum : Nat) : Int) := by
+      intro l
+      induction l with
+      | nil => simp
+      | cons x xs ih => simp [ih]
+    rw [key, subdivide_sum num chunks hc]
+  · intro a ha b hb
+    obtain ⟨s, hs, rfl⟩ := List.mem_map.1 ha
+    obtain ⟨t, ht, rfl⟩ := List.mem_map.1 hb
+    exact_mod_cast subdivide_balanced num chunks hc s hs t ht
+end lin
+
+
+/-- next to a cut that falls on an integer (`chunks ∣ i*num`, while `num/chunks` is not an
+integer) the reference chunks have `q+1` cells below and `q` cells above, `q = num / chunks` -/
+theorem cut_at_integer_point (num chunks i : Nat) (hc : 0 < chunks) (hi : 0 < i)
+    (hd : chunks ∣ i * num) (hnd : ¬ chunks ∣ num) :
+    cut num chunks (i + 1) = cut num chunks i + num / chunks ∧
+    cut num chunks i = cut num chunks (i - 1) + num / chunks + 1 := by
+  unfold cut
+  obtain ⟨E, hE⟩ := hd
+  have hr0 : 0 < num % chunks := Nat.pos_of_ne_zero (fun h => hnd (Nat.dvd_of_mod_eq_zero h))
+  have hr : num % chunks < chunks := Nat.mod_lt _ hc
+  have hn : num = chunks * (num / chunks) + num % chunks := (Nat.div_add_mod num chunks).symm
+  generalize num / chunks = q at *
+  generalize num % chunks = r at *
+  have e0 : i * num / chunks = E := by rw [hE]; exact Nat.mul_div_cancel_left E hc
+  have e1 : (i + 1) * num = r + chunks * (E + q) := by
+    rw [Nat.add_mul, Nat.one_mul, hE, Nat.mul_add]; omega
+  have hin : num ≤ i * num := Nat.le_mul_of_pos_left num hi
+  have hEq : q + 1 ≤ E := by
+    by_contra hcon
+    have : E ≤ q := by omega
+    have := Nat.mul_le_mul_left chunks this
+    omega
+  have h3 := Nat.mul_le_mul_left chunks hEq
+  have e2 : (i - 1) * num = (chunks - r) + chunks * (E - q - 1) := by
+    have : (i - 1) * num = i * num - num := by rw [Nat.sub_mul, Nat.one_mul]
+    rw [this, hE]
+    have : chunks * (E - q - 1) = chunks * E - chunks * q - chunks := by
+      rw [Nat.mul_sub, Nat.mul_sub, Nat.mul_one]
+    rw [this, Nat.mul_add, Nat.mul_one] at *
+    omega
+  rw [e0, e1, e2, Nat.add_mul_div_left _ _ hc, Nat.add_mul_div_left _ _ hc, Nat.div_eq_of_lt hr,
+    Nat.div_eq_of_lt (by omega : chunks - r < chunks)]
+  omega
+
+/-- two consecutive cuts cannot both fall on integers unless `num/chunks` is an integer -/
+theorem not_two_integer_points (num chunks i : Nat) (h1 : chunks ∣ i * num) (h2 : chunks ∣ (i + 1) * num) :
+    chunks ∣ num := by
+  have : (i + 1) * num - i * num = num := by rw [Nat.add_mul, Nat.one_mul]; omega
+  rw [← this]; exact Nat.dvd_sub h2 h1
+
+
+/-- cut positions that are the reference cuts `floor(i*num/chunks)`, or one less at places where
+`i*num/chunks` is an integer while `num/chunks` is not: what `np.linspace(...).astype(int)` can
+produce when the double product `i * (num/chunks)` lands just below an integer.  (That the real
+cuts are of this form is measured by the harness, not proven: it is a statement about IEEE rounding.) -/
+def RobustCuts (num chunks : Nat) (c : Nat → Nat) : Prop :=
+  c 0 = 0 ∧ c chunks = num ∧ ∀ i, 0 < i → i < chunks →
+    (c i = cut num chunks i ∨ (c i + 1 = cut num chunks i ∧ chunks ∣ i * num ∧ ¬ chunks ∣ num))
+
+theorem sizesOfCuts_sum (c : Nat → Nat) (k : Nat) (hmono : ∀ i, i < k → c i ≤ c (i + 1)) :
+    (sizesOfCuts c k).sum = c k - c 0 := by
+  unfold sizesOfCuts
+  induction k with
+  | zero => simp
+  | succ k ih =>
+    rw [List.range_succ, List.map_append, List.sum_append, ih (fun i hi => hmono i (by omega))]
+    have h1 := hmono k (by omega)
+    have h2 : c 0 ≤ c k := by
+      clear ih h1
+      induction k with
+      | zero => exact Nat.le_refl _
+      | succ j ihj => exact Nat.le_trans (ihj (fun i hi => hmono i (by omega))) (hmono j (by omega))
+    simp only [List.map_cons, List.map_nil, List.sum_cons, List.sum_nil]
+    omega
+
+theorem robust_size (num chunks : Nat) (hc : 0 < chunks) (c : Nat → Nat) (h : RobustCuts num chunks c)
+    (i : Nat) (hi : i < chunks) :
+    c i ≤ c (i + 1) ∧ (c (i + 1) - c i = num / chunks ∨ c (i + 1) - c i = num / chunks + 1) := by
+  obtain ⟨h0, hN, hmid⟩ := h
+  have E0 : cut num chunks 0 = 0 := by simp [cut]
+  have EN : cut num chunks chunks = num := by unfold cut; exact Nat.mul_div_cancel_left num hc
+  have key : ∀ j, j ≤ chunks → (c j = cut num chunks j ∨
+      (c j + 1 = cut num chunks j ∧ chunks ∣ j * num ∧ ¬ chunks ∣ num ∧ 0 < j)) := by
+    intro j hj
+    rcases Nat.eq_zero_or_pos j with rfl | hj0
+    · left; rw [h0, E0]
+    · rcases Nat.lt_or_ge j chunks with hlt | hge
+      · rcases hmid j hj0 hlt with a | ⟨a, b, d⟩
+        · left; exact a
+        · right; exact ⟨a, b, d, hj0⟩
+      · have : j = chunks := by omega
+        subst this; left; rw [hN, EN]
+  have hstep := cut_step num chunks i hc
+  have hmono := cut_mono num chunks (Nat.le_add_right i 1)
+  rcases key i (by omega) with a | ⟨a, b, d, e⟩ <;> rcases key (i + 1) (by omega) with a' | ⟨a', b', d', _⟩
+  · omega
+  · have := (cut_at_integer_point num chunks (i + 1) hc (by omega) b' d').2
+    simp only [Nat.add_sub_cancel] at this
+    clear b' d' key hmid EN E0 hN h0
+    generalize num / chunks = q at *
+    generalize cut num chunks i = A at *
+    generalize cut num chunks (i + 1) = B at *
+    omega
+  · have := (cut_at_integer_point num chunks i hc e b d).1
+    clear b d key hmid EN E0 hN h0
+    generalize num / chunks = q at *
+    generalize cut num chunks i = A at *
+    generalize cut num chunks (i + 1) = B at *
+    omega
+  · exact absurd (not_two_integer_points num chunks i b b') d
+
+/-- **the contract is robust against the rounding of `np.linspace`**: whatever cut positions of the
+form `RobustCuts` the float computation produces, the chunk sizes are positive, add up to `num`
+and differ by at most one -/
+theorem subdivide_robust (num chunks : Nat) (hc : 0 < chunks) (hle : chunks ≤ num) (c : Nat → Nat)
+    (h : RobustCuts num chunks c) :
+    Contract (sizesOfCuts c chunks) num ∧
+    ∀ a ∈ sizesOfCuts c chunks, ∀ b ∈ sizesOfCuts c chunks, a ≤ b + 1 := by
+  have hq : 0 < num / chunks := Nat.div_pos hle hc
+  have hs := robust_size num chunks hc c h
+  refine ⟨⟨?_, ?_⟩, ?_⟩
+  · intro s hs'
+    simp only [sizesOfCuts, List.mem_map, List.mem_range] at hs'
+    obtain ⟨i, hi, rfl⟩ := hs'
+    have := (hs i hi).2
+    omega
+  · rw [sizesOfCuts_sum c chunks (fun i hi => (hs i hi).1), h.1, h.2.1]; rfl
+  · intro a ha b hb
+    simp only [sizesOfCuts, List.mem_map, List.mem_range] at ha hb
+    obtain ⟨i, hi, rfl⟩ := ha
+    obtain ⟨j, hj, rfl⟩ := hb
+    have := (hs i hi).2
+    have := (hs j hj).2
+    omega
+
+/-- the reference cuts themselves are robust cuts -/
+example : RobustCuts 30 22 (cut 30 22) := ⟨by decide, by decide, fun i _ _ => Or.inl rfl⟩
+/-- `_subdivide(30, 22)` on IEEE doubles: `11 * (30/22) = 14.999999999999998`, so cut 11 is 14, not 15 -/
+example : RobustCuts 30 22 (fun i => if i = 11 then 14 else cut 30 22 i) := by
+  refine ⟨by decide, by decide, fun i h1 h2 => ?_⟩
+  by_cases h : i = 11
+  · subst h; right; decide
+  · left; simp [h]
+
 
 /-- the two ends of a ghost-cell message use the same MPI tag, and the tags of a node's two
 sides towards the same neighbour (axis with two chunks) differ -/
@@ -435,20 +627,39 @@ theorem extract_combine_id_consistent {α : Type} (m : Mesh) (ghost : Bool) (sub
   · rw [h1 id hid] at hb; exact absurd hb (by simp)
 
 
+
+/-- a neighbour id is a valid node of the mesh -/
+theorem neighbor_lt_len (m : Mesh) (axis : Nat) (upper : Bool) (a b : Nat) (ha : a < m.len)
+    (hax : axis < m.axes.length) (h : neighbor m axis upper a = some b) : b < m.len := by
+  rw [neighbor_eq_nbStep, Option.map_eq_some_iff] at h
+  obtain ⟨k', h1, rfl⟩ := h
+  have hia := unravel_inRange m.dec a ha
+  have hka := inRange_getD hia axis (by rw [Mesh.dec_length]; exact hax)
+  exact ravel_lt (inRange_set hia axis _ (nbStep_lt hka h1))
+
+
+/-- the seam condition of the padded base array along a periodic axis: the two ghost layers hold
+the opposite valid layers, with a minus sign for an anti-periodic condition (only positions of the
+array are constrained) -/
+def SeamCond {α : Type} [Neg α] (m : Mesh) (anti : List Bool) (full : Arr α) (axis : Nat) : Prop :=
+  m.periodic.getD axis false = true → ∀ g : List Nat, InRange g (m.arrShape true) →
+    full.get (g.set axis (m.shape.getD axis 0 + 1)) = sgn (anti.getD axis false) (full.get (g.set axis 1)) ∧
+    full.get (g.set axis 0) = sgn (anti.getD axis false) (full.get (g.set axis (m.shape.getD axis 0)))
+
 /-- **ghost cells come from the neighbours**: the layer that the `_MPIBC` of node `a` writes
-(`_idx_write`) holds, in the padded sub-array cut out of the padded base array, exactly the values
-of the layer that the opposite `_MPIBC` of its neighbour `b` reads (`_idx_read`), at every
-transversal position.  Across the periodic seam this uses that the padded base array obeys the
-periodic condition along the axis. -/
-theorem ghost_exchange {α : Type} (m : Mesh) (full : Arr α) (axis a b : Nat) (upper : Bool)
+(`_idx_write`) must hold - for the padded sub-array to be the block of the padded base array - the
+values of the layer that the opposite `_MPIBC` of its neighbour `b` reads (`_idx_read`), at every
+position of the padded sub-array, multiplied by `-1` exactly when `flip_sign` is set (`mpiFlip`: at
+the seam of an anti-periodic axis, never at an interior face of the same axis).  Across the seam
+this uses the (anti-)periodic condition `SeamCond` of the padded base array. -/
+theorem ghost_exchange {α : Type} [Neg α] (m : Mesh) (anti : List Bool) (full : Arr α) (axis a b : Nat) (upper : Bool)
     (ha : a < m.len) (hb : b < m.len) (hax : axis < m.axes.length)
     (h : neighbor m axis upper a = some b)
-    (hper : m.periodic.getD axis false = true → ∀ g : List Nat,
-      full.get (g.set axis (m.shape.getD axis 0 + 1)) = full.get (g.set axis 1) ∧
-      full.get (g.set axis 0) = full.get (g.set axis (m.shape.getD axis 0)))
-    (q : List Nat) :
+    (hper : SeamCond m anti full axis)
+    (q : List Nat) (hq : InRange q ((m.subShape a).map (· + 2))) :
     (m.extract true full a).get (q.set axis (mpiWrite upper ((m.subShape a).getD axis 0)))
-      = (m.extract true full b).get (q.set axis (mpiRead (!upper) ((m.subShape b).getD axis 0))) := by
+      = sgn (mpiFlip m anti axis upper a)
+          ((m.extract true full b).get (q.set axis (mpiRead (!upper) ((m.subShape b).getD axis 0)))) := by
   have hia := id2idx_inRange m ha
   have hib := id2idx_inRange m hb
   have hdl : axis < m.dec.length := by rw [Mesh.dec_length]; exact hax
@@ -464,9 +675,20 @@ theorem ghost_exchange {α : Type} (m : Mesh) (full : Arr α) (axis a b : Nat) (
     simp only [Mesh.shape, List.getD_eq_getElem?_getD, List.getElem?_map]
     cases m.axes[axis]? <;> simp
   have hk' := nbStep_lt hka h1
-  have hseam := fun hend => hper (nbStep_seam h1 hend)
+  -- the position in the padded base array is inside the array
+  have hXr : InRange (vadd (starts (m.box true a)) q) (m.arrShape true) := by
+    have hq' : InRange q ((subShapeOf m.axes (m.id2idx a)).map (· + gadd true)) := by
+      simpa [gadd, Mesh.subShape] using hq
+    have := inRange_of_inBox true m.axes _ _ hia (inBox_vadd true m.axes _ q hia hq')
+    simpa [Mesh.arrShape, Mesh.shape, Mesh.box] using this
+  have hseam := fun hend => hper (nbStep_seam h1 hend) _ hXr
+  have hflip : mpiFlip m anti axis upper a = (anti.getD axis false &&
+      (if upper then decide ((m.id2idx a).getD axis 0 + 1 = m.dec.getD axis 0)
+       else decide ((m.id2idx a).getD axis 0 = 0))) := by
+    unfold mpiFlip atSeam; cases upper <;> rfl
+  rw [hflip]
   rw [hshape] at hseam
-  rw [hdec] at hka hk' h1 hseam
+  rw [hdec] at hka hk' h1 hseam ⊢
   -- start corners
   have hsb : starts (m.box true b) = (starts (m.box true a)).set axis (offset (m.axes.getD axis []) k') := by
     unfold Mesh.box; rw [h2]; exact starts_boxOf_set true m.axes _ axis k' hia hax hk'
@@ -480,7 +702,7 @@ theorem ghost_exchange {α : Type} (m : Mesh) (full : Arr α) (axis a b : Nat) (
   rw [hsb, vadd_set_set, vadd_set, hsa, ena, enb]
   generalize m.axes.getD axis [] = sizes at *
   generalize (m.id2idx a).getD axis 0 = k at *
-  generalize vadd (starts (m.box true a)) q = X
+  generalize vadd (starts (m.box true a)) q = X at *
   unfold nbStep at h1
   cases upper
   · -- lower side of `a`: write index 0, the neighbour sends its last valid layer
@@ -491,6 +713,8 @@ theorem ghost_exchange {α : Type} (m : Mesh) (full : Arr α) (axis a b : Nat) (
       have : offset sizes (k - 1) + sizeAt sizes (k - 1) = offset sizes k := by
         rw [← offset_succ]; congr 1; omega
       rw [this]
+      have : decide (k = 0) = false := by simp; omega
+      rw [this, Bool.and_false, sgn_false]
     · simp only [Option.some.injEq] at h1
       subst h1
       have e0 : k = 0 := by omega
@@ -499,13 +723,16 @@ theorem ghost_exchange {α : Type} (m : Mesh) (full : Arr α) (axis a b : Nat) (
         have : sizes.length - 1 + 1 = sizes.length := by omega
         rw [this, offset_length]
       rw [e1, e0, offset_zero]
-      exact ((hseam e0) X).2
+      simp only [decide_true, Bool.and_true]
+      exact (hseam e0).2
   · -- upper side of `a`: write index n+1, the neighbour sends its first valid layer
     simp only [if_true, mpiWrite, mpiRead, Bool.not_true, Bool.false_eq_true, if_false] at h1 hseam ⊢
     split_ifs at h1 with c0 c1 c2
     · simp only [Option.some.injEq] at h1
       subst h1
       rw [offset_succ]
+      have : decide (k + 1 = sizes.length) = false := by simp; omega
+      rw [this, Bool.and_false, sgn_false]
       simp only [Nat.add_assoc]
     · simp only [Option.some.injEq] at h1
       subst h1
@@ -513,8 +740,342 @@ theorem ghost_exchange {α : Type} (m : Mesh) (full : Arr α) (axis a b : Nat) (
         rw [← offset_succ]
         have : k + 1 = sizes.length := by omega
         rw [this, offset_length]
+      have : decide (k + 1 = sizes.length) = true := by simp; omega
+      rw [this, Bool.and_true]
       rw [offset_zero, Nat.zero_add, ← Nat.add_assoc, e1]
-      exact ((hseam c1) X).1
+      exact (hseam c1).1
+
+  /-! ### the exchange step -/
+
+/-- every chunk has at least one cell (part of the contract of `_subdivide`) -/
+def ChunksPos (m : Mesh) : Prop := ∀ sizes ∈ m.axes, ∀ s ∈ sizes, 0 < s
+
+instance (m : Mesh) : Decidable (ChunksPos m) := by unfold ChunksPos; infer_instance
+
+/-- sub-array state `s` holds at position `q` of node `a` what the padded base array holds there -/
+def Agree {α : Type} (m : Mesh) (full : Arr α) (s : Nat → List Nat → Option α) (a : Nat) (q : List Nat) : Prop :=
+  s a q = some (full.get (vadd (starts (m.box false a)) q))
+
+theorem extract_get_eq {α : Type} (m : Mesh) (full : Arr α) {a : Nat} (ha : a < m.len) (q : List Nat) :
+    (m.extract true full a).get q = full.get (vadd (starts (m.box false a)) q) := by
+  have hs : starts (m.box true a) = starts (m.box false a) := starts_boxOf true m.axes _ (unravel_inRange m.dec a ha)
+  simp only [Mesh.extract, Arr.slice, hs]
+
+theorem sizeAt_pos_of_chunksPos (m : Mesh) (hpos : ChunksPos m) (axis k : Nat) (hax : axis < m.axes.length)
+    (hk : k < (m.axes.getD axis []).length) : 0 < sizeAt (m.axes.getD axis []) k := by
+  have hmem : m.axes.getD axis [] ∈ m.axes := by
+    rw [List.getD_eq_getElem?_getD, List.getElem?_eq_getElem hax]; simp
+  exact hpos _ hmem _ (sizeAt_mem _ hk)
+
+/-- **one axis of the exchange fills the faces with a neighbour correctly**: if every node holds its
+share of the valid data and the padded base array obeys the (anti-)periodic seam condition along the
+axis, then after `exchangeAxis` the ghost face of node `a` towards its neighbour holds exactly what
+the padded base array holds at the same place -/
+theorem exchangeAxis_face {α : Type} [Neg α] (m : Mesh) (hpos : ChunksPos m) (anti : List Bool) (full : Arr α)
+    (axis : Nat) (hax : axis < m.axes.length) (hseam : SeamCond m anti full axis)
+    (s : Nat → List Nat → Option α)
+    (hint : ∀ b, b < m.len → ∀ p, interiorAll (m.subShape b) p = true → Agree m full s b p)
+    (a b : Nat) (upper : Bool) (ha : a < m.len) (h : neighbor m axis upper a = some b)
+    (q : List Nat) (hq : onFace (m.subShape a) axis upper q = true) :
+    Agree m full (m.exchangeAxis anti axis s) a q := by
+  have hb : b < m.len := neighbor_lt_len m axis upper a b ha hax h
+  have hia := id2idx_inRange m ha
+  have hib := id2idx_inRange m hb
+  have hdl : axis < m.dec.length := by rw [Mesh.dec_length]; exact hax
+  have hka := inRange_getD hia axis hdl
+  obtain ⟨k', h1, h2⟩ := (neighbor_some_iff m axis upper a b ha hb hax).1 h
+  have hk' := nbStep_lt hka h1
+  have hdec : m.dec.getD axis 0 = (m.axes.getD axis []).length := by
+    simp only [Mesh.dec, List.getD_eq_getElem?_getD, List.getElem?_map]
+    cases m.axes[axis]? <;> simp
+  rw [hdec] at hk'
+  -- the neighbour's sub-grid has the same shape except along the axis
+  have hshb : m.subShape b = (m.subShape a).set axis (sizeAt (m.axes.getD axis []) k') := by
+    unfold Mesh.subShape; rw [h2]; exact subShapeOf_set m.axes _ axis k' hia
+  have hlen : axis < (m.subShape a).length := by rw [Mesh.subShape_length]; exact hax
+  have hnb : (m.subShape b).getD axis 0 = sizeAt (m.axes.getD axis []) k' := by
+    rw [hshb]; exact getD_set_self _ _ _ _ hlen
+  have hnbpos : 0 < (m.subShape b).getD axis 0 := by
+    rw [hnb]; exact sizeAt_pos_of_chunksPos m hpos axis k' hax hk'
+  have hqf := hq
+  unfold onFace at hqf
+  simp only [Bool.and_eq_true, decide_eq_true_eq] at hqf
+  obtain ⟨⟨_, hqe⟩, hqw⟩ := hqf
+  have hqr : InRange q ((m.subShape a).map (· + 2)) := onFace_inRange hq
+  -- the cell the neighbour reads is one of its valid cells
+  have hread : interiorAll (m.subShape b) (q.set axis (mpiRead (!upper) ((m.subShape b).getD axis 0))) = true := by
+    apply interiorExcept_set
+    · rw [hshb, interiorExcept_set_shape]; exact hqe
+    · unfold mpiRead; split_ifs <;> omega
+    · unfold mpiRead; split_ifs <;> omega
+  have hval := hint b hb _ hread
+  have hex := ghost_exchange m anti full axis a b upper ha hb hax h hseam q hqr
+  rw [← hqw, set_getD_self, extract_get_eq m full ha, extract_get_eq m full hb] at hex
+  unfold Agree at hval ⊢
+  unfold Mesh.exchangeAxis
+  cases upper
+  · rw [if_pos hq, h]
+    simp only [Bool.not_false] at hval hex
+    simp only [hval, Option.map_some, hex]
+  · have hnot : onFace (m.subShape a) axis false q = false := by
+      unfold onFace
+      simp only [Bool.and_eq_false_iff, decide_eq_false_iff_not]
+      right
+      rw [hqw]; unfold mpiWrite; simp
+    rw [hnot]
+    simp only [Bool.false_eq_true, if_false]
+    rw [if_pos hq, h]
+    simp only [Bool.not_true] at hval hex
+    simp only [hval, Option.map_some, hex]
+
+/-- the exchange along `axis` changes nothing but the two ghost faces of that axis -/
+theorem exchangeAxis_other {α : Type} [Neg α] (m : Mesh) (anti : List Bool) (axis : Nat)
+    (s : Nat → List Nat → Option α) (a : Nat) (q : List Nat)
+    (h1 : onFace (m.subShape a) axis false q = false) (h2 : onFace (m.subShape a) axis true q = false) :
+    m.exchangeAxis anti axis s a q = s a q := by
+  unfold Mesh.exchangeAxis
+  rw [h1, h2]; simp
+
+/-- a valid cell is in no ghost face -/
+theorem onFace_false_of_interior {shape q : List Nat} (h : interiorAll shape q = true) (axis : Nat) (upper : Bool) :
+    onFace shape axis upper q = false := by
+  by_contra hc
+  have hc' : onFace shape axis upper q = true := by simpa using hc
+  unfold onFace at hc'
+  simp only [Bool.and_eq_true, decide_eq_true_eq] at hc'
+  have := interiorAll_getD h axis hc'.1.1
+  rw [hc'.2] at this
+  unfold mpiWrite at this
+  split_ifs at this <;> omega
+
+/-- a position in a ghost face of one axis is in no ghost face of another axis (it would be an edge) -/
+theorem onFace_false_of_other {shape q : List Nat} {ax : Nat} {up : Bool} (h : onFace shape ax up q = true)
+    (axis : Nat) (hne : axis ≠ ax) (upper : Bool) : onFace shape axis upper q = false := by
+  by_contra hc
+  have hc' : onFace shape axis upper q = true := by simpa using hc
+  unfold onFace at hc' h
+  simp only [Bool.and_eq_true, decide_eq_true_eq] at hc' h
+  have := interiorExcept_getD hc'.1.2 ax h.1.1 (Ne.symm hne)
+  rw [h.2] at this
+  unfold mpiWrite at this
+  split_ifs at this <;> omega
+
+theorem exchangeUpTo_succ {α : Type} [Neg α] (m : Mesh) (anti : List Bool) (s : Nat → List Nat → Option α) (n : Nat) :
+    m.exchangeUpTo anti s (n + 1) = m.exchangeAxis anti n (m.exchangeUpTo anti s n) := by
+  simp [Mesh.exchangeUpTo, List.range_succ, List.foldl_append]
+
+/-- **the exchange step** (all axes, in the order of `BoundariesList.set_ghost_cells`): started from
+sub-arrays that hold only the nodes' shares of the valid data, the exchange along the first `n` axes
+leaves the valid cells alone and fills every ghost face of these axes that has a neighbour with the
+content of the padded base array (including the sign across an anti-periodic seam) -/
+theorem exchangeUpTo_spec {α : Type} [Neg α] (m : Mesh) (hpos : ChunksPos m) (anti : List Bool) (full : Arr α)
+    (hseam : ∀ axis, axis < m.axes.length → SeamCond m anti full axis)
+    (s : Nat → List Nat → Option α)
+    (hint : ∀ b, b < m.len → ∀ p, interiorAll (m.subShape b) p = true → Agree m full s b p)
+    (n : Nat) (hn : n ≤ m.axes.length) :
+    (∀ b, b < m.len → ∀ p, interiorAll (m.subShape b) p = true → Agree m full (m.exchangeUpTo anti s n) b p) ∧
+    (∀ axis, axis < n → ∀ a b upper, a < m.len → neighbor m axis upper a = some b →
+      ∀ q, onFace (m.subShape a) axis upper q = true → Agree m full (m.exchangeUpTo anti s n) a q) := by
+  induction n with
+  | zero =>
+    refine ⟨?_, fun axis h => absurd h (Nat.not_lt_zero _)⟩
+    simpa [Mesh.exchangeUpTo] using hint
+  | succ n ih =>
+    obtain ⟨ih1, ih2⟩ := ih (by omega)
+    rw [exchangeUpTo_succ]
+    refine ⟨?_, ?_⟩
+    · intro b hb p hp
+      unfold Agree
+      rw [exchangeAxis_other m anti n _ b p (onFace_false_of_interior hp n false) (onFace_false_of_interior hp n true)]
+      exact ih1 b hb p hp
+    · intro axis hax a b upper ha hnb q hq
+      rcases Nat.lt_succ_iff_lt_or_eq.1 hax with hlt | rfl
+      · unfold Agree
+        rw [exchangeAxis_other m anti n _ a q (onFace_false_of_other hq n (by omega) false)
+          (onFace_false_of_other hq n (by omega) true)]
+        exact ih2 axis hlt a b upper ha hnb q hq
+      · exact exchangeAxis_face m hpos anti full axis (by omega) (hseam axis (by omega)) _ ih1 a b upper ha hnb q hq
+
+theorem initSub_agree {α : Type} (m : Mesh) (full : Arr α) (b : Nat) (p : List Nat)
+    (hp : interiorAll (m.subShape b) p = true) : Agree m full (m.initSub full) b p := by
+  unfold Agree Mesh.initSub; rw [if_pos hp]
+
+/-- **ghost cells come from the neighbours** (`initSub`, then `exchange`): after the complete exchange
+every node holds, at each of its valid cells and at each ghost-face position towards a neighbour, the
+value of the padded base array -/
+theorem exchange_faces {α : Type} [Neg α] (m : Mesh) (hpos : ChunksPos m) (anti : List Bool) (full : Arr α)
+    (hseam : ∀ axis, axis < m.axes.length → SeamCond m anti full axis) :
+    (∀ b, b < m.len → ∀ p, interiorAll (m.subShape b) p = true → Agree m full (m.exchange anti (m.initSub full)) b p) ∧
+    (∀ axis, axis < m.axes.length → ∀ a b upper, a < m.len → neighbor m axis upper a = some b →
+      ∀ q, onFace (m.subShape a) axis upper q = true → Agree m full (m.exchange anti (m.initSub full)) a q) :=
+  exchangeUpTo_spec m hpos anti full hseam _ (fun b _ => initSub_agree m full b) _ (Nat.le_refl _)
+
+/-- after the exchange and after the outer faces have been set from the global condition, a node
+holds at every valid cell and at every ghost-face position (everything but corners and edges) the
+value of the padded base array -/
+theorem setOuter_exchange_agree {α : Type} [Neg α] (m : Mesh) (hpos : ChunksPos m) (anti : List Bool) (full : Arr α)
+    (hseam : ∀ axis, axis < m.axes.length → SeamCond m anti full axis)
+    (a : Nat) (ha : a < m.len) (q : List Nat)
+    (hq : interiorAll (m.subShape a) q = true ∨ ∃ axis upper, onFace (m.subShape a) axis upper q = true) :
+    Agree m full (m.setOuter full (m.exchange anti (m.initSub full))) a q := by
+  obtain ⟨e1, e2⟩ := exchange_faces m hpos anti full hseam
+  unfold Agree Mesh.setOuter
+  split_ifs with hc
+  · rfl
+  · rcases hq with hq | ⟨axis, upper, hq⟩
+    · exact e1 a ha q hq
+    · have hax : axis < m.axes.length := by
+        have := hq
+        unfold onFace at this
+        simp only [Bool.and_eq_true, decide_eq_true_eq] at this
+        rw [← Mesh.subShape_length m a]; exact this.1.1
+      cases hnb : neighbor m axis upper a with
+      | some b => exact e2 axis hax a b upper ha hnb q hq
+      | none =>
+        exfalso
+        apply hc
+        rw [List.any_eq_true]
+        refine ⟨axis, List.mem_range.2 hax, ?_⟩
+        cases upper <;> simp [hq, hnb]
+
+/-- **the composed statement: split, exchange ghost cells with the neighbours (sign included), take
+the outer faces from the global condition, apply the operator on every sub-grid, combine = apply the
+operator on the whole grid.**  `S` is any stencil with position-dependent coefficients whose reads
+are plus-shaped (the cell and its two neighbours along each axis - what all operators of the
+package read; corners and edges are never exchanged and never read). -/
+theorem operator_exchange_combine {α β : Type} [Neg α] (m : Mesh) (hpos : ChunksPos m) (anti : List Bool)
+    (S : List Nat → List α → β) (reads : List (List Nat))
+    (hreads : ∀ d ∈ reads, plusOffset d = true ∧ d.length = m.axes.length)
+    (full : Arr α) (hfull : full.shape = m.arrShape true)
+    (hseam : ∀ axis, axis < m.axes.length → SeamCond m anti full axis)
+    (g : List Nat) (hg : InRange g m.shape) :
+    m.combine false
+        (fun id p => applyStencilOn S reads (m.setOuter full (m.exchange anti (m.initSub full)) id)
+          (vadd (starts (m.box false id)) p) p) g
+      = some (applyStencil S reads full g g) := by
+  obtain ⟨id, ⟨hid, hb⟩, _⟩ := slices_tile_nd m g hg
+  rcases combineUpTo_spec m false
+      (fun id p => applyStencilOn S reads (m.setOuter full (m.exchange anti (m.initSub full)) id)
+        (vadd (starts (m.box false id)) p) p)
+      m.len g with ⟨i, h1, h2, h3, _⟩ | ⟨h1, _⟩
+  · unfold Mesh.combine
+    rw [h3]
+    have hp : InRange (vsub g (starts (m.box false i))) (m.subShape i) :=
+      inRange_vsub_of_inBox m.axes _ g (unravel_inRange m.dec i h1) h2
+    simp only [vadd_vsub_of_inBox h2]
+    congr 1
+    unfold applyStencilOn applyStencil readNb
+    congr 1
+    apply readAll_congr
+    intro d hd
+    obtain ⟨hplus, hdl⟩ := hreads d hd
+    have hpos' := plus_read_position (m.subShape i) _ d hp hplus (by rw [hdl, Mesh.subShape_length])
+    have hag := setOuter_exchange_agree m hpos anti full hseam i h1 _ hpos'
+    have hr : InRange (vadd (vsub g (starts (m.box false i))) d) ((m.subShape i).map (· + 2)) := by
+      rcases hpos' with h | ⟨ax, up, h⟩
+      · exact interiorAll_inRange h
+      · exact onFace_inRange h
+    obtain ⟨_, hget⟩ := get?_extract_ghost m full hfull h1 _ hr
+    unfold Agree at hag
+    rw [hag]
+    rw [← vadd_assoc, vadd_vsub_of_inBox h2] at hget
+    rw [hget, ← vadd_assoc, vadd_vsub_of_inBox h2]
+  · rw [h1 id hid] at hb; exact absurd hb (by simp)
+
+theorem vadd_getD (s q : List Nat) (axis : Nat) (h1 : axis < s.length) (h2 : axis < q.length) :
+    (vadd s q).getD axis 0 = s.getD axis 0 + q.getD axis 0 := by
+  induction s generalizing q axis with
+  | nil => simp at h1
+  | cons x xs ih =>
+    cases q with
+    | nil => simp at h2
+    | cons y ys =>
+      cases axis with
+      | zero => simp
+      | succ axis => simpa using ih ys axis (by simpa using h1) (by simpa using h2)
+
+/-- a node without a neighbour on a side sits at the outer face of the base grid on that side -/
+theorem outer_of_no_neighbor (m : Mesh) (axis : Nat) (upper : Bool) (a : Nat) (ha : a < m.len)
+    (hax : axis < m.axes.length) (h : neighbor m axis upper a = none) : atSeam m axis upper a = true := by
+  have hia := id2idx_inRange m ha
+  have hka := inRange_getD hia axis (by rw [Mesh.dec_length]; exact hax)
+  rcases (neighbor_none_iff m axis upper a).1 h with h1 | ⟨_, h2⟩
+  · unfold atSeam; cases upper
+    · simp only [Bool.false_eq_true, if_false, decide_eq_true_eq]; omega
+    · simp only [if_true, decide_eq_true_eq]; omega
+  · unfold atSeam; cases upper
+    · simp only [Bool.false_eq_true, if_false] at h2
+      simp only [Bool.false_eq_true, if_false, decide_eq_true_eq]; exact h2
+    · simp only [if_true] at h2
+      simp only [if_true, decide_eq_true_eq]; omega
+
+/-- **outer faces: the global boundary condition on a sub-grid gives the ghost cells of the whole
+grid.**  For a local condition of first order - the ghost cell is a function `bc` (which may depend
+on the position in the base grid, e.g. through the coordinates along the face) of the adjacent valid
+cell - applying the same `bc` to a sub-array that holds the node's share of the valid data yields, at
+a face without a neighbour, exactly the ghost value of the padded base array.  (That `to_subgrid`
+hands the sub-grid this same function is what the harness monitors; conditions of second order read
+a second valid cell, which a one-cell chunk does not have - see the known finding.) -/
+theorem outer_face_local {α : Type} (m : Mesh) (full : Arr α) (bc : List Nat → α → α)
+    (axis a : Nat) (upper : Bool) (ha : a < m.len) (hax : axis < m.axes.length)
+    (hnone : neighbor m axis upper a = none)
+    (hbase : ∀ g, g.getD axis 0 = mpiWrite upper (m.shape.getD axis 0) →
+      full.get g = bc g (full.get (g.set axis (mpiRead upper (m.shape.getD axis 0)))))
+    (s : Nat → List Nat → Option α)
+    (hint : ∀ p, interiorAll (m.subShape a) p = true → Agree m full s a p)
+    (hn : 0 < (m.subShape a).getD axis 0)
+    (q : List Nat) (hq : onFace (m.subShape a) axis upper q = true) :
+    (s a (q.set axis (mpiRead upper ((m.subShape a).getD axis 0)))).map (bc (vadd (starts (m.box false a)) q))
+      = some (full.get (vadd (starts (m.box false a)) q)) := by
+  have hia := id2idx_inRange m ha
+  have hdl : axis < m.dec.length := by rw [Mesh.dec_length]; exact hax
+  have hka := inRange_getD hia axis hdl
+  have hout := outer_of_no_neighbor m axis upper a ha hax hnone
+  have hqf := hq
+  unfold onFace at hqf
+  simp only [Bool.and_eq_true, decide_eq_true_eq] at hqf
+  obtain ⟨⟨_, hqe⟩, hqw⟩ := hqf
+  have hread : interiorAll (m.subShape a) (q.set axis (mpiRead upper ((m.subShape a).getD axis 0))) = true := by
+    apply interiorExcept_set hqe
+    · unfold mpiRead; split_ifs <;> omega
+    · unfold mpiRead; split_ifs <;> omega
+  have hval := hint _ hread
+  unfold Agree at hval
+  rw [hval, Option.map_some]
+  congr 1
+  have hdec : m.dec.getD axis 0 = (m.axes.getD axis []).length := by
+    simp only [Mesh.dec, List.getD_eq_getElem?_getD, List.getElem?_map]
+    cases m.axes[axis]? <;> simp
+  have hshape : m.shape.getD axis 0 = (m.axes.getD axis []).sum := by
+    simp only [Mesh.shape, List.getD_eq_getElem?_getD, List.getElem?_map]
+    cases m.axes[axis]? <;> simp
+  have hsa : (starts (m.box false a)).getD axis 0 = offset (m.axes.getD axis []) ((m.id2idx a).getD axis 0) :=
+    starts_boxOf_getD false m.axes _ axis hia hax
+  have ena : (m.subShape a).getD axis 0 = sizeAt (m.axes.getD axis []) ((m.id2idx a).getD axis 0) :=
+    subShapeOf_getD m.axes _ axis hia hax
+  have hls : axis < (starts (m.box false a)).length := by rw [starts_length, Mesh.box_length]; exact hax
+  have hlq : axis < q.length := by
+    rw [InRange.length_eq (onFace_inRange hq), List.length_map, Mesh.subShape_length]; exact hax
+  have hg := vadd_getD _ _ axis hls hlq
+  rw [vadd_set, hsa]
+  rw [hsa] at hg
+  unfold atSeam at hout
+  rw [hdec] at hka hout
+  rw [hshape] at hbase
+  rw [ena] at hqw ⊢
+  generalize m.axes.getD axis [] = sizes at *
+  generalize (m.id2idx a).getD axis 0 = k at *
+  cases upper
+  · simp only [Bool.false_eq_true, if_false, decide_eq_true_eq] at hout
+    subst hout
+    simp only [mpiWrite, mpiRead, Bool.false_eq_true, if_false, offset_zero, Nat.zero_add] at hbase hqw hg ⊢
+    exact (hbase _ (by rw [hg, hqw])).symm
+  · simp only [if_true, decide_eq_true_eq] at hout
+    have e1 : offset sizes k + sizeAt sizes k = sizes.sum := by
+      rw [← offset_succ, hout, offset_length]
+    simp only [mpiWrite, mpiRead, if_true] at hbase hqw hg ⊢
+    rw [e1]
+    exact (hbase _ (by rw [hg, hqw, ← Nat.add_assoc, e1])).symm
 
 
 /-! ## geometry of the sub-grids -/
@@ -669,6 +1230,91 @@ theorem volumes_add_up_nd (axes : List (List Nat)) (hpos : ∀ sizes ∈ axes, 0
       simp [volCoef]
 
 
+/-- **cell edges agree**: edge `p` of chunk `i` is edge `offset i + p` of the base grid -/
+theorem cell_edges_agree (lo hi : K) (sizes : List Nat) (hpos : 0 < sizes.sum) (d : K × K) (i p : Nat)
+    (hi' : i < sizes.length) (hs : 0 < sizeAt sizes i) :
+    cellEdge ((bounds1d lo hi sizes).getD i d).1 ((bounds1d lo hi sizes).getD i d).2 (sizeAt sizes i) p
+      = cellEdge lo hi sizes.sum (offset sizes i + p) := by
+  have hN : (sizes.sum : K) ≠ 0 := by exact_mod_cast (Nat.pos_iff_ne_zero.1 hpos)
+  have hn : (sizeAt sizes i : K) ≠ 0 := by exact_mod_cast (Nat.pos_iff_ne_zero.1 hs)
+  unfold cellEdge
+  rw [subgrid_spacing lo hi sizes hpos d i hi' hs, bounds1d_getD lo hi sizes hpos i d hi']
+  simp only [lat]; push_cast
+  ring
+
+/-- **per-cell volumes agree** (one axis, any volume measure with antiderivative `F`): cell `p` of
+chunk `i` has the volume of cell `offset i + p` of the base grid -/
+theorem cell_volumes_agree (F : K → K) (lo hi : K) (sizes : List Nat) (hpos : 0 < sizes.sum) (d : K × K) (i p : Nat)
+    (hi' : i < sizes.length) (hs : 0 < sizeAt sizes i) :
+    F (cellEdge ((bounds1d lo hi sizes).getD i d).1 ((bounds1d lo hi sizes).getD i d).2 (sizeAt sizes i) (p + 1))
+      - F (cellEdge ((bounds1d lo hi sizes).getD i d).1 ((bounds1d lo hi sizes).getD i d).2 (sizeAt sizes i) p)
+    = F (cellEdge lo hi sizes.sum (offset sizes i + p + 1)) - F (cellEdge lo hi sizes.sum (offset sizes i + p)) := by
+  rw [cell_edges_agree lo hi sizes hpos d i p hi' hs, cell_edges_agree lo hi sizes hpos d i (p + 1) hi' hs,
+    Nat.add_assoc]
+
+/-- **volumes add up, any number of axes, any product measure** (`Fs`: one antiderivative per axis -
+Cartesian `id,..`, polar `[r^2]`, spherical `[r^3]`, cylindrical `[r^2, id]`): the volumes of all
+sub-grids of the mesh sum to the volume of the base grid -/
+theorem volumes_add_up_gen (Fs : List (K → K)) (axes : List (List Nat)) (hpos : ∀ sizes ∈ axes, 0 < sizes.sum)
+    (bs : List (K × K)) (hlen : bs.length = axes.length) (hF : Fs.length = axes.length) :
+    ((List.range (axes.map List.length).prod).map fun id =>
+        volGen Fs (subBounds bs axes (unravel (axes.map List.length) id))).sum
+      = volGen Fs bs := by
+  induction axes generalizing bs Fs with
+  | nil =>
+    cases bs with
+    | nil => cases Fs <;> simp [volGen, subBounds]
+    | cons _ _ => simp at hlen
+  | cons sizes ax ih =>
+    cases bs with
+    | nil => simp at hlen
+    | cons b bs' =>
+      cases Fs with
+      | nil => simp at hF
+      | cons F Fs' =>
+        obtain ⟨lo, hi⟩ := b
+        have hlen' : bs'.length = ax.length := by simpa using hlen
+        have hF' : Fs'.length = ax.length := by simpa using hF
+        have ih' := ih Fs' (fun s hs => hpos s (List.mem_cons_of_mem _ hs)) bs' hlen' hF'
+        have hs := hpos sizes (List.mem_cons_self ..)
+        simp only [List.map_cons, List.prod_cons, unravel, subBounds]
+        have step : ∀ id, volGen (F :: Fs')
+              ((bounds1d lo hi sizes).getD (id / (ax.map List.length).prod) (lo, hi) ::
+                subBounds bs' ax (unravel (ax.map List.length) (id % (ax.map List.length).prod)))
+            = (fun i => F ((bounds1d lo hi sizes).getD i (lo, hi)).2 - F ((bounds1d lo hi sizes).getD i (lo, hi)).1)
+                (id / (ax.map List.length).prod)
+              * (fun r => volGen Fs' (subBounds bs' ax (unravel (ax.map List.length) r)))
+                (id % (ax.map List.length).prod) := by
+          intro id; simp [volGen]
+        simp only [step]
+        refine (sum_range_mul
+          (fun i => F ((bounds1d lo hi sizes).getD i (lo, hi)).2 - F ((bounds1d lo hi sizes).getD i (lo, hi)).1)
+          (fun r => volGen Fs' (subBounds bs' ax (unravel (ax.map List.length) r))) _ _).trans ?_
+        rw [ih']
+        have e := map_range_getD (bounds1d lo hi sizes) (lo, hi) (fun b : K × K => F b.2 - F b.1)
+        rw [bounds1d_length] at e
+        rw [e, volumes_add_up F lo hi sizes hs]
+        simp [volGen]
+
+omit [LinearOrder K] [IsStrictOrderedRing K] in
+/-- the volume coefficients of the grid classes are product measures -/
+theorem volCoef_eq_volGen (r0 r1 z0 z1 : K) :
+    volCoef .cylindrical [(r0, r1), (z0, z1)] = volGen [fun r => r * r, fun z => z] [(r0, r1), (z0, z1)] ∧
+    volCoef .polar [(r0, r1)] = volGen [fun r => r * r] [(r0, r1)] ∧
+    volCoef .spherical [(r0, r1)] = volGen [fun r => r * r * r] [(r0, r1)] := by
+  simp [volCoef, volGen]
+
+/-- **volumes add up on a cylindrical mesh** (any chunking the model can express: the package only
+allows z-splits) -/
+theorem volumes_add_up_cylinder (sr sz : List Nat) (hr : 0 < sr.sum) (hz : 0 < sz.sum) (r0 r1 z0 z1 : K) :
+    ((List.range (sr.length * (sz.length * 1))).map fun id =>
+        volGen [fun r : K => r * r, fun z => z] (subBounds [(r0, r1), (z0, z1)] [sr, sz] (unravel [sr.length, sz.length] id))).sum
+      = volCoef .cylindrical [(r0, r1), (z0, z1)] := by
+  rw [(volCoef_eq_volGen r0 r1 z0 z1).1]
+  have := volumes_add_up_gen [fun r : K => r * r, fun z => z] [sr, sz]
+    (by intro s hs; simp at hs; rcases hs with rfl | rfl <;> assumption) [(r0, r1), (z0, z1)] rfl rfl
+  simpa using this
+
 end bounds
 
 /-! ## admissibility -/
@@ -764,6 +1410,39 @@ example : ∀ d ∈ offs 2, InRange d (exMesh.axes.map fun _ => 3) := by decide
 example : ∀ d ∈ [[1, 1], [0, 1], [2, 1], [1, 0], [1, 2]], InRange d (exMesh.axes.map fun _ => 3) := by decide
 /-- an uneven reference subdivision where `linspace` truncation and the formula agree -/
 example : subdivide 12 5 = [2, 2, 3, 2, 3] := by decide
+/-- the plus-shaped read sets the driver uses meet the hypothesis of `operator_exchange_combine` -/
+example : ∀ d ∈ plusReads 1, plusOffset d = true ∧ d.length = 1 := by decide
+example : ∀ d ∈ plusReads 2, plusOffset d = true ∧ d.length = 2 := by decide
+example : ∀ d ∈ plusReads 3, plusOffset d = true ∧ d.length = 3 := by decide
+/-- a corner read is not plus-shaped -/
+example : plusOffset [0, 0] = false ∧ plusOffset [2, 1, 0] = false := by decide
+
+/-- an anti-periodic axis with 4 cells split into 2 + 2: padded base array `[-4, 1, 2, 3, 4, -1]` -/
+def exAnti : Mesh := { axes := [[2, 2]], periodic := [true] }
+def exAntiFull : Arr Int :=
+  { shape := [6], get := fun p => match p with | [i] => [-4, 1, 2, 3, 4, -1].getD i 0 | _ => 0 }
+
+example : ChunksPos exAnti := by decide
+/-- the hypotheses of `ghost_exchange` / `exchange_faces` / `operator_exchange_combine` are satisfiable
+with an anti-periodic condition -/
+example : ∀ axis, axis < exAnti.axes.length → SeamCond exAnti [true] exAntiFull axis := by
+  intro axis hax _ g hg
+  have : axis = 0 := by simp [exAnti] at hax; omega
+  subst this
+  match g, hg with
+  | [x], _ => simp [exAntiFull, exAnti, Mesh.shape]
+  | [], h => simp [exAnti, Mesh.arrShape, Mesh.shape] at h
+  | _ :: _ :: _, h => simp [exAnti, Mesh.arrShape, Mesh.shape] at h
+/-- the exchange computes the sign across the seam and none at the interior face (node 0: lower ghost
+`-4` from node 1's last cell `4`, upper ghost `3` from node 1's first cell) -/
+example : exAnti.exchange [true] (exAnti.initSub exAntiFull) 0 [0] = some (-4) ∧
+    exAnti.exchange [true] (exAnti.initSub exAntiFull) 0 [3] = some 3 ∧
+    exAnti.exchange [true] (exAnti.initSub exAntiFull) 1 [3] = some (-1) := by decide
+/-- py-pde before the repair of `extract_boundary_conditions` behaved like `anti = []` (no `flip_sign`
+on any `_MPIBC`): the ghost cell across the seam gets `4` where the whole grid has `-4` - the last
+clause of the property fails for anti-periodic conditions on a split axis -/
+example : exAnti.exchange [] (exAnti.initSub exAntiFull) 0 [0] = some 4 ∧ exAntiFull.get [0] = -4 := by decide
+
 /-- with ghost cells neighbouring boxes overlap: the later node wins (here node 1 overwrites the
 last valid cell of node 0), so `extract ∘ combine = id` needs consistent sub-arrays -/
 example : ({ axes := [[1, 2]], periodic := [false] } : Mesh).combine true
